@@ -17,7 +17,6 @@ import (
 	"bytes"
 	"context"
 	"encoding/binary"
-	"encoding/hex"
 	"encoding/json"
 	"errors"
 	"fmt"
@@ -719,18 +718,56 @@ func c08Gen(r *vRand, inconsistent bool) c08Case {
 // One Coq case = one generated history with several fault sets: the initial objects
 // are written once (byte strings as hex literals: Coq parses those far faster than
 // numeral lists) followed by one observation record per executed fault set.
-func c08Hex(b []byte) string { return "\"" + hex.EncodeToString(b) + "\"" }
+func c08Pack(b []byte) string {
+	// 7 bytes per primitive-integer literal, big-endian, zero padded; length explicit
+	var sb strings.Builder
+	sb.WriteString("pk ")
+	sb.WriteString(strconv.Itoa(len(b)))
+	sb.WriteString(" [")
+	for i := 0; i < len(b); i += 7 {
+		var v uint64
+		for j := 0; j < 7; j++ {
+			v <<= 8
+			if i+j < len(b) {
+				v |= uint64(b[i+j])
+			}
+		}
+		if i > 0 {
+			sb.WriteByte(';')
+		}
+		sb.WriteString(strconv.FormatUint(v, 10))
+	}
+	sb.WriteString("]%uint63")
+	return sb.String()
+}
+
+// c08Hash: two polynomial hashes mod the largest prime below 2^32 (what the Coq side
+// recomputes over the model's bytes; final objects are compared by length + hash)
+func c08Hash(b []byte) (uint64, uint64) {
+	const p = 4294967291
+	h1, h2 := uint64(7), uint64(11)
+	for _, x := range b {
+		h1 = (h1*65599 + uint64(x) + 1) % p
+		h2 = (h2*31337 + uint64(x) + 3) % p
+	}
+	return h1, h2
+}
 func c08CoqKey(k c08Key) string {
 	return fmt.Sprintf("mkKey %d %s %s %s", k.Space, cqZ(k.Part), cqZ(k.Base), cqBool(k.Idx))
 }
-func c08CoqStore(objs []c08Obj, skipSource bool) string {
+func c08CoqStore(objs []c08Obj, hashed bool) string {
 	items := make([]string, 0, len(objs))
 	for _, o := range objs {
 		k, _ := c08ParseKey(o.Key)
-		if skipSource && k.Space == 0 {
-			continue
+		if hashed {
+			if k.Space == 0 {
+				continue
+			}
+			h1, h2 := c08Hash(o.Data)
+			items = append(items, fmt.Sprintf("(%s, (%d, %d, %d))", c08CoqKey(k), len(o.Data), h1, h2))
+		} else {
+			items = append(items, fmt.Sprintf("(%s, %s)", c08CoqKey(k), c08Pack(o.Data)))
 		}
-		items = append(items, fmt.Sprintf("(%s, hx %s)", c08CoqKey(k), c08Hex(o.Data)))
 	}
 	return cqList(items)
 }
@@ -900,7 +937,7 @@ func TestVerifC08(t *testing.T) {
 		for _, cs := range c08Corpus() {
 			full(cs, r.Fork(), 3)
 		}
-		n := vN(150, 700)
+		n := vN(120, 700)
 		for i := 0; i < n; i++ {
 			full(c08Gen(r.Fork(), false), r.Fork(), 3)
 		}
@@ -911,7 +948,7 @@ func TestVerifC08(t *testing.T) {
 		}
 		rep.Notes = append(rep.Notes, fmt.Sprintf("inconsistent-header stream (outside the theorem's guard, evidence only): %d fault-free runs, %d of them break the prefix/validity oracle; model and code still agree on all of them (correspondence)", inconsStats[0], inconsStats[1]))
 	}
-	rep.Cases("C08", "From Coq Require Import String.\nFrom KS Require Import lib.Base lib.PitrWire model.Pitr corr.PitrCorr.", "case", "check_case", coq, jsons)
+	rep.Cases("C08", "From Coq Require Import Uint63.\nFrom KS Require Import lib.Base lib.PitrWire model.Pitr corr.PitrCorr.", "case", "check_case", coq, jsons)
 	rep.Write()
 	if len(rep.Failures) > 0 {
 		t.Logf("oracle failures: %s", strings.TrimSpace(rep.Failures[0].What))
